@@ -265,9 +265,12 @@ def seq_prog(r, pts, n_ops):
             ins.append("D" + b.hex())
     npts = list(range(len(ins)))  # indices of point registers
     for _ in range(n_ops):
-        c = r.below(14)
+        c = r.below(18)
         i, j = r.choice(npts), r.choice(npts)
-        if c <= 2:
+        if c >= 14:
+            # conditional select / assign / swap (both halves) / negate; whatever follows consumes the result
+            ins.append(r.choice(["K%d,%d,%d", "J%d,%d,%d", "W%d,%d,%d", "Y%d,%d,%d"]) % (i, j, r.below(2)) if c < 17 else "L%d,%d" % (i, r.below(2)))
+        elif c <= 2:
             ins.append("A%d,%d" % (i, j))
         elif c <= 4:
             ins.append("S%d,%d" % (i, j))
@@ -346,6 +349,17 @@ def req_C03(r, tier):
         for a, b in pairs[::step]:
             for alg in ("add", "sub"):
                 out.append(("ed.direct.%s.%s" % (c, alg), "ed.direct.%s.%s %s %s" % (c, alg, a.hex(), b.hex())))
+    # conditional select / assign / swap / negate followed by operations that consume EVERY coordinate (add, sub, scalar mul,
+    # validity): a stale coordinate after an in-place conditional operation shows only then
+    for lab, b in valid[:sz(tier, 12, 60)]:
+        lab2, b2 = r.choice(valid)
+        for opc in ("K", "J", "W", "Y"):
+            for c in (0, 1):
+                out.append(("ed.seq:cond_%s%d" % (opc, c), "ed.seq D%s;D%s;G;%s0,1,%d;V3;A3,2;S3,1;S3,0;M3,%s;Z5;Z6;E4,2" % (b.hex(), b2.hex(), opc, c, H(r.below(L)))))
+                out.append(("ed.coords:cond_%s%d" % (opc, c), "ed.coords D%s;D%s;%s0,1,%d;A2,0" % (b.hex(), b2.hex(), opc, c)))
+        for c in (0, 1):
+            out.append(("ed.seq:cond_L%d" % c, "ed.seq D%s;G;L0,%d;V2;A2,0;A2,1;S2,0;Z3;Z5;M2,%s" % (b.hex(), c, H(r.below(L)))))
+            out.append(("ed.coords:cond_L%d" % c, "ed.coords D%s;L0,%d;A1,0" % (b.hex(), c)))
     for lab, b in pts:
         out.append(("ed.to_montgomery:" + lab, "ed.to_montgomery " + b.hex()))
     for n in range(0, 70, 1 if tier != QUICK else 7):
@@ -462,8 +476,18 @@ def req_C04(r, tier):
             out.append(("ed.msm_opt:n=%d" % n, "ed.msm_opt %s %s" % (lst(ss), lst(ps))))
             if n > 0:
                 ps2 = list(ps)
-                ps2[r.below(n)] = "~"
+                kn = r.below(n)
+                ps2[kn] = "~"
                 out.append(("ed.msm_opt:none", "ed.msm_opt %s %s" % (lst(ss), lst(ps2))))
+                # a None point paired with an exceptional scalar (0, 1, l-1): "None exactly when some input point is None"
+                for ex in (0, 1, L - 1):
+                    ss2 = list(ss)
+                    ss2[kn] = H(ex)
+                    out.append(("ed.msm_opt:none_x_scalar%s:n=%d" % ("0" if ex == 0 else ("1" if ex == 1 else "l-1"), n), "ed.msm_opt %s %s" % (lst(ss2), lst(ps2))))
+                    for c in ("serial", "avx2", "ifma"):
+                        out.append(("ed.direct.%s.straus_vt:none_x_scalar" % c, "ed.direct.%s.straus_vt %s %s" % (c, lst(ss2), lst(ps2))))
+                        out.append(("ed.direct.%s.pippenger:none_x_scalar" % c, "ed.direct.%s.pippenger %s %s" % (c, lst(ss2), lst(ps2))))
+                    out.append(("ris.msm_opt:none_x_scalar", "ris.msm_opt %s %s" % (lst(ss2), lst(("~" if q == "~" else RIS_B) for q in ps2))))
             for c in ("serial", "avx2", "ifma"):
                 if n <= 200:
                     out.append(("ed.direct.%s.straus_ct:n=%d" % (c, n), "ed.direct.%s.straus_ct %s %s" % (c, lst(ss), lst(ps))))
@@ -1242,11 +1266,32 @@ def req_C11(r, tier):
     small = "quick"
     out += req_C03(r, small)
     c4 = req_C04(r, small)
-    out += [x for x in c4 if "n=5" not in x[0] and "n=79" not in x[0] and "n=8" not in x[0][-5:]][: sz(tier, 1500, 100000)]
+    out += per_class([x for x in c4 if "n=5" not in x[0] and "n=79" not in x[0] and "n=8" not in x[0][-5:]], sz(tier, 1500, 100000))
     out += req_C06(r, small)
     out += req_C07(r, small)
-    out += req_C08(r, small)[: sz(tier, 400, 5000)]
-    out += req_C09(r, small)[: sz(tier, 300, 5000)]
+    out += per_class(req_C08(r, small), sz(tier, 400, 5000))
+    out += per_class(req_C09(r, small), sz(tier, 300, 5000))
+    return out
+
+
+def per_class(reqs, cap):
+    """at most `cap` requests, taken round-robin over the class labels so that EVERY class stays represented (a plain prefix
+    of the list silently dropped whole classes, e.g. the unreduced-scalar double-base requests)"""
+    if len(reqs) <= cap:
+        return reqs
+    by = {}
+    for x in reqs:
+        by.setdefault(x[0], []).append(x)
+    out, depth = [], 0
+    while len(out) < cap:
+        added = False
+        for lab in by:
+            if depth < len(by[lab]) and len(out) < max(cap, len(by)):
+                out.append(by[lab][depth])
+                added = True
+        if not added:
+            break
+        depth += 1
     return out
 
 
